@@ -39,6 +39,8 @@ def gen(rng, tier, k):
         cfg.update(model=model, in_shape=in_shape, batch=rng.choice([2, 4]), model_dtype='float64', factor_dtype='float64',
                    inv_dtype='float64', accumulation_steps=rng.choice([1, 2]), factor_decay=rng.choice([0.5, 0.75]))
     cfg['kl_clip'] = rng.choice([None, None, 0.01])
+    if rng.random() < 0.5:          # refresh everything every step: stale second-order data on any rank shows within a short history
+        cfg['factor_update_steps'] = 1; cfg['inv_update_steps'] = 1
     cfg['exact'] = exact
     nsteps = rng.randint(2, 4 if tier == 'quick' else 5)
     hist = [['train', cfg['accumulation_steps']] for _ in range(nsteps)]
